@@ -148,7 +148,7 @@ class C17(univ.UnivCheck):
             "all ordered pairs of depth<=1 terms over the confusable vocabulary (35 atoms quick / 72 thorough; incl. 1 vs 1.0 vs True, "
             "-1 vs -2, regex flags, the two folds of a repeated hour) and of "
             "depth<=2 terms over 2/4 representatives: q1==q2 must imply equal hashes and equal truth vectors over the "
-            "381-point universe; (a&b)==(b&a), (a|b)==(b|a) for all ordered pairs of depth<=1 operands; a term containing "
+            "384-point universe; (a&b)==(b&a), (a|b)==(b|a) for all ordered pairs of depth<=1 operands; a term containing "
             "map() must compare unequal to everything including a rebuilt copy of itself"
         )
 
@@ -174,10 +174,8 @@ class C17(univ.UnivCheck):
         from tinyflux import Point
 
         self.points = []
-        for t, m, tags, fields in self.U:
-            p = Point()
-            p.time, p.measurement, p.tags, p.fields = t, m, dict(tags), dict(fields)
-            self.points.append(p)
+        for rp in self.U:
+            self.points.append(c09.real_point(rp))
         self._cache = {}
 
     def _vec(self, q):
